@@ -13,6 +13,9 @@
 (*   fmq       contour.fm * prod(deltas) (exact rational arithmetic, rounded), 2 limbs    *)
 (*   fr        per cell the rank of f[c] among the distinct densities (0 = smallest)          *)
 (*   cmp       per cell sign(f - fm) with f = contour.cell_averaged_joint_pdf(centres)       *)
+(*   gridok    cell_center_coordinates are min + k * delta (float64, from the reported limits   *)
+(*             and cell sizes) within 10^-12 relative + 10^-9 delta, and end at max; the         *)
+(*             reference Fh, Fl is computed on that declared grid                                *)
 (*   warned    the constructor emitted the RuntimeWarning "could not be reached"          *)
 (*                                                                                      *)
 (* Tolerances (units of 10^-18):                                                         *)
@@ -60,10 +63,19 @@ Judge(r) ==
       (* warned <=> Total < L, either verdict accepted inside the slack band *)
       warnok == /\ (r.warned => L2Lt(tot, L2Add(lim, slack)))
                 /\ (~r.warned => L2Le(lim, L2AddSat(tot, slack)))
+      (* the same statements on the documented cell probabilities themselves (the reference   *)
+      (* CDF differences Fh, Fl).  Slack: the float cumsum (200 N units) + the tolerance of     *)
+      (* CellProbIsCdfDifference summed over the grid (50 000 N units + total / 10^9)           *)
+      (* <= (N div 10 000 + 2) * 10^-9.  A cell width or grid spacing that is off by 10^-6      *)
+      (* relative moves the content by 10^-6 - at alpha = 10^-6 that is the whole margin.       *)
+      slackF == <<(n \div 10000) + 2, 0>>
+      totF   == L2SumWhere(r.Fh, r.Fl, LAMBDA c : TRUE)
+      warnF  == /\ (r.warned => L2Lt(totF, L2Add(lim, slackF)))
+                /\ (~r.warned => L2Le(lim, L2AddSat(totF, slackF)))
   IN IF r.warned \/ Len(r.R) = 0
      (* no mask was returned by the selection: it signalled "limit not reachable".  Then the  *)
      (* user must have been warned (and the total must indeed be below 1 - alpha).            *)
-     THEN << <<"WarnIff", warnok>>, <<"WarnedWhenNoRegion", r.warned>>,
+     THEN << <<"WarnIff", warnok>>, <<"WarnIffOfCdfDifferences", warnF>>, <<"WarnedWhenNoRegion", r.warned>>,
              <<"LimitIsOneMinusAlpha", limok>>, <<"CellProbIsCdfDifference", cdfok>> >>
      ELSE
        LET sumR   == L2SumWhere(r.Ph, r.Pl, LAMBDA c : r.R[c] = 1)
@@ -102,6 +114,12 @@ Judge(r) ==
                /\ (L2Lt(L2Add(r.fmq, ftol), Pc(r, c)) => r.R[c] = 1)
                /\ (r.R[c] = 1 => L2Le(r.fmq, L2Add(Pc(r, c), ftol))))>>,
          <<"WarnIff", warnok>>,
+         <<"WarnIffOfCdfDifferences", warnF>>,
+         <<"ContentOfCdfDifferences",
+             L2Le(L2SumWhere(r.Fh, r.Fl, LAMBDA c : r.R[c] = 1), L2Add(lim, slackF))>>,
+         <<"TightOfCdfDifferences",
+             nIn < n => L2Lt(lim, L2Add(L2AddSat(L2SumWhere(r.Fh, r.Fl, LAMBDA c : r.R[c] = 1),
+                                                  L2MaxWhere(r.Fh, r.Fl, LAMBDA c : r.R[c] = 0)), slackF))>>,
          <<"LimitIsOneMinusAlpha", limok>>,
          <<"CellProbIsCdfDifference", cdfok>>
        >>
@@ -146,7 +164,7 @@ Clauses(r) ==
   ELSE IF ~r.freshsame /\ ~ShapeOk(r) THEN << <<"EqualsFreshModel", FALSE>> >>
   ELSE IF ~ShapeOk(r) THEN << <<"ArrayShape", FALSE>> >>
   ELSE IF r.calls # 1 THEN << <<"OneSelection", FALSE>> >>
-  ELSE Judge(r) \o << <<"EqualsFreshModel", r.freshsame>> >>
+  ELSE Judge(r) \o << <<"EqualsFreshModel", r.freshsame>>, <<"GridIsDeclared", r.gridok>> >>
 
 Verdict(r) == Failing(Clauses(r))
 
